@@ -130,28 +130,57 @@ def formula_clause(model, rep, funcs):
             det = f"weight = {norm_src(wexpr)}"
         rep.ob("H", a, "weight = 1 / (1 + q2**order): gain 1 at zero frequency, real and positive", ok, det, node=(wf[0] if wf else f.node), fn=f,
                clause="3 formula", stmt=f"wfilt ({a})")
-        loops = [lp for lp in walk_no_nested(f.node) if isinstance(lp, ast.For) and norm_src(lp.iter) == "shape"]
-        ok2 = None
-        det2 = ""
-        if loops:
-            lp = loops[0]
-            dv = norm_src(lp.target)
-            divs = [n for n in ast.walk(lp) if isinstance(n, ast.BinOp) and isinstance(n.op, ast.Div) and "arange" in norm_src(n.left)]
-            axn = [msrc(bb["ax"][1]) for _, bb in MW.find("$ax = $$ar / $$den", within=lp) if "arange" in msrc(bb["ar"][1])]
-            sq = [n for n in ast.walk(lp) if isinstance(n, ast.BinOp) and isinstance(n.op, ast.Pow) and norm_src(n.left) in axn]
-            apps = [c for c in ast.walk(lp) if isinstance(c, ast.Call) and isinstance(c.func, ast.Attribute) and c.func.attr == "append"]
-            d2 = AffineDomain(model, positive_syms={dv, "cutoff"})
-            it2 = Interp(model, d2, depth=0)
-            den_ok = False
-            if len(divs) == 1:
-                den = it2.eval(divs[0].right, {dv: d2.sym(dv), "cutoff": d2.sym("cutoff")}, f)
-                den_ok = isinstance(den, A) and den.equals(A(d2.sym(dv).num * d2.sym("cutoff").num))
-            sq_ok = len(sq) == 1 and norm_src(sq[0].right) == "2" and any(any(x is sq[0] for x in ast.walk(ap)) for ap in apps)
-            ok2 = den_ok and sq_ok
-            det2 = f"denominator ok: {den_ok} ({norm_src(divs[0].right) if divs else None}); squared before the sum: {sq_ok}"
+        # q2: decided on symbolic terms.  Whatever builds the per-axis list (append loop, one or two comprehensions), the generic element handed to
+        # meshgrid(*ranges) must be ifftshift((arange(..) / (d * cutoff)) ** 2) with d the generic element of `shape`, and q2 the add-reduction of the sparse ij mesh
+        from ..domains.terms import T, TermDomain, callee_name, freeze
+        from ..absint import Const as _Const, ListOf as _ListOf
+        tdom = TermDomain()
+        tit = Interp(model, tdom, depth=0)
+        seen_mesh = []
+
+        def on_call(interp, fn_, node, callee, args, kwargs, env, _f=f):
+            if fn_ is _f and (dotted(node.func) or norm_src(node.func)).split(".")[-1] == "meshgrid":
+                seen_mesh.append((node, list(args), dict(kwargs)))
+
+        tit.on_call.append(on_call)
+        targs = {p_: T("param", (p_,)) for p_ in f.param_names()}
+        targs["real"] = _Const(False)
+        try:
+            tit.run(f, args=targs)
+        except Exception:  # pragma: no cover
+            seen_mesh = []
+        ok2, det2 = None, "meshgrid call not evaluated"
+        if len(seen_mesh) == 1:
+            node_, margs, mkw = seen_mesh[0]
+            el = None
+            if len(margs) == 1 and isinstance(margs[0], tuple) and margs[0][0] == "*":
+                v = margs[0][1]
+                el = v.elem if isinstance(v, _ListOf) else None
+            elif margs and all(isinstance(x, T) for x in margs) and len({freeze(x) for x in margs}) == 1:
+                el = margs[0]
+            d = T("elem", (T("param", ("shape",)),))
+            cut = T("param", ("cutoff",))
+            ok2 = False
+            det2 = f"per-axis term {el!r}"[:220]
+            if isinstance(el, T) and callee_name(el) == "ifftshift" and el.args[1]:
+                pw = el.args[1][0]
+                if isinstance(pw, T) and pw.op == "op" and pw.args[0] == "Pow" and pw.args[2] == T("const", ("2",)):
+                    q = pw.args[1]
+                    if isinstance(q, T) and q.op == "op" and q.args[0] == "Div" and callee_name(q.args[1]) == "arange":
+                        den = q.args[2]
+                        ok2 = isinstance(den, T) and den.op == "op" and den.args[0] == "Mult" and {den.args[1], den.args[2]} == {d, cut}
+                        if not ok2:
+                            det2 = f"denominator {den!r} is not d * cutoff"
+                    else:
+                        det2 = f"squared quantity {q!r} is not arange(...) / (d * cutoff)"[:220]
+                elif isinstance(pw, T):
+                    det2 = f"the shifted per-axis array {pw!r} is not a square (the square must be taken per axis, before the sum)"[:220]
+            ij = mkw.get("indexing")
+            if ok2 and not (isinstance(ij, _Const) and ij.value == "ij"):
+                ok2, det2 = False, "meshgrid is not called with indexing='ij'"
         red = [c for c in calls_in(f) if dotted(c.func) == "reduce"]
-        sum_ok = bool(red) and norm_src(red[0].args[0]).endswith("add") and bool(loops) and \
-            MW.all_of(["$rg = []", "$rg.append($$e)", "reduce($$add, $$xp.meshgrid(*$rg, indexing='ij', sparse=True))"])[0]
+        sum_ok = bool(red) and norm_src(red[0].args[0]).endswith("add") and len(red[0].args) == 2 and \
+            any(isinstance(x, ast.Call) and (dotted(x.func) or norm_src(x.func)).split(".")[-1] == "meshgrid" for x in ast.walk(MW.expr(red[0].args[1])))
         rep.ob("H", a, "each axis contributes (k / (d * cutoff))**2 (frequency in cycles per pixel over the cutoff), squared before the sparse-meshgrid sum",
                (ok2 and sum_ok) if ok2 is not None else None, det2 + f"; sum over axes ok: {sum_ok}", node=f.node, fn=f, clause="3 formula", stmt=f"q2 ({a})")
         # the weight depends on the image only through its shape  => linear filter
